@@ -77,6 +77,9 @@ def make_models(m, kind, rng):
         return EM(), EM()
     if kind == 'bias':
         return (EM(bias_sd=1e-4, noise=1e-5), EM(bias_sd=[1e-2, 0, 1e-2], noise=[1e-3, 1e-3, 0], bias_walk=[1e-5, 0, 0]))
+    if kind == 'asym':      # an asymmetric scale/misalignment pattern (upper triangle; a single off-diagonal element)
+        return (EM(bias_sd=1e-4, noise=1e-5, scale_misal_sd=[[1e-3, 1e-3, 1e-3], [0, 1e-3, 1e-3], [0, 0, 1e-3]]),
+                EM(bias_sd=[1e-2, 0, 1e-2], noise=1e-3, scale_misal_sd=[[0, 0, 0], [0, 0, 1e-3], [0, 0, 0]]))
     if kind == 'full':
         return (EM(bias_sd=1e-4, noise=1e-5, bias_walk=1e-7, scale_misal_sd=1e-3),
                 EM(bias_sd=1e-2, noise=1e-3, bias_walk=1e-5, scale_misal_sd=1e-3))
@@ -290,7 +293,7 @@ def run_task(m, task):
                 traj['VD'] = task.get("vd0", 0.0) * 1.0
             nominal = traj + 1e-7
             incs = make_increments(m, times[0], times[1:], rng) if task.get("inc") else None
-            if incs is None and task["models"] == "full":
+            if incs is None and task["models"] in ("full", "asym"):
                 gm, am = make_models(m, "bias", rng)
             res = filters.run_feedforward_filter(nominal, traj, 1.0, 0.1, 0.1, 1.0, gm, am, meas_arg, incs,
                                                  time_step=task["step"], with_altitude=task["alt"])
